@@ -104,3 +104,7 @@ UNITS.append(U("C05.sc_reduce_512_value", ["C05"], SM, "h_sc_reduce_512_value", 
                tier="thorough", timeout=3600, replay=False, note="r == l mod n via three limb-wise folds; multiplications by the constant limbs of 2^256-n are real"))
 UNITS.append(U("C05.sc_mul_512_value", ["C05"], SM, "h_sc_mul_512_value", verify=True, replace=UF, functions=["secp256k1_scalar_mul_512", "secp256k1_scalar_sqr_512"],
                tier="thorough", timeout=3600, replay=False, note="schoolbook sum over the uninterpreted 64x64 multiplier"))
+UNITS.append(U("C05.fe_mul_contract", ["C05"], FM, "h_fe_mul_contract", verify=True, enforce=["secp256k1_fe_mul"], replace=UF, functions=["secp256k1_fe_mul", "secp256k1_fe_impl_mul", "secp256k1_fe_mul_inner"],
+               timeout=1800, tier="thorough", replay=False, note="magnitude contract used by the group units, enforced on the real wrapper"))
+UNITS.append(U("C05.fe_sqr_contract", ["C05"], FM, "h_fe_sqr_contract", verify=True, enforce=["secp256k1_fe_sqr"], replace=UF, functions=["secp256k1_fe_sqr", "secp256k1_fe_impl_sqr", "secp256k1_fe_sqr_inner"],
+               timeout=1800, tier="thorough", replay=False))
